@@ -501,7 +501,7 @@ class MovieStorage(StorageBase):
             self._read_metadata()
         return self.info["num_frames"]
 
-    @cached_property()
+    @cached_property(extra_args=["info"])
     def times(self):
         """:class:`~numpy.ndarray`: The times at which data is available."""
         times = None
